@@ -18,7 +18,7 @@ import tempfile
 
 INJECTED_NAME = "zz_verif_c15_test.go"
 SOURCE = os.path.join("harness", "inpkg", "random", "c15_inpkg_test.go")
-TESTS = ("TestVerifC15_UintN", "TestVerifC15_Perm")
+TESTS = ("TestVerifC15_UintN", "TestVerifC15_Perm", "TestVerifC15_Deep")
 
 
 def prepare(rundir, repo, verif):
